@@ -7,7 +7,10 @@ Part 1 (engine E1, mc.histories) - product breadth-first search over the real ob
   (m = 1 rolls over to a TemporaryFile on the first write, 3 and 8 somewhere inside the explored contents,
   10**6 never by itself).  Operation menu (exactly the calls the statement lists):
       write(w)      w in {'a', 'e-acute\\n', 'b\\r\\nc', U+1F600}  (bytes: their UTF-8)  - enabled only at end of data
-      read(), read(1|2|3), readline(), readlines(), next(f), `for line in f`
+      read(), read(1|2|3), readline(), readlines(), `for line in f` (a fresh iterator each time),
+      iter(f) + next(it): `iter` obtains an iterator and KEEPS it, `next` advances the kept iterator (next(f) while none
+                    has been obtained) - so one iterator is carried across later writes, seeks and rollovers, the way a
+                    reader that walks a growing file line by line does (io.BytesIO / io.StringIO support exactly this)
       seek(p) for every p in [0, len]  (code points for SpooledStringIO, bytes for SpooledBytesIO), seek(0, SEEK_END)
       tell(), getvalue(), len(f)
       rollover()    the explicit form of "has rolled over to a temporary file": a no-op for the reference and for
@@ -16,7 +19,8 @@ Part 1 (engine E1, mc.histories) - product breadth-first search over the real ob
   State oracle after every transition, for every variant: return value == reference's (write()'s is not compared,
   DESIGN 5.1), tell() == reference position, read() of the rest == content[pos:], getvalue() == content.
   A state is (content, reference position, per variant: rolled?, raw stream position, _tell, the codec reader's
-  look-ahead buffers) - i.e. everything that can influence later calls, so histories are merged only when the
+  look-ahead buffers, and - when the kept iterator is an object other than the file itself - its type and closed flag)
+  - i.e. everything that can influence later calls, so histories are merged only when the
   implementation state really is the same.  Successors are rebuilt by replaying the bare history on fresh objects
   (the oracle's probing reads never leak into a successor).  `ioutils.READ_CHUNK_SIZE` is configuration: native and
   scaled to 2 (module global rebound around every replay, restored afterwards).
@@ -26,6 +30,12 @@ Part 2 (engine E2, mc.inputs) - MultiFileReader: every content of length <= N ov
   read(1|2|3), read(), seek(0).  Oracle: the reads since the last seek(0) concatenate to a prefix of the members'
   concatenation; it is the whole concatenation as soon as a read is unsized or returns empty; a sized read never
   returns more than asked.
+  Member kinds: the statement speaks of "its files", so besides io.StringIO / io.BytesIO members (the full space above)
+  a smaller space (contents over {a, e-acute, \n}, see bounds) is run with every other kind of file object whose read(n)
+  is exact: io.TextIOWrapper, a real text file from open(), the module's own SpooledStringIO (in memory and rolled
+  over), io.BufferedReader, a real binary file, SpooledBytesIO (in memory and rolled over), and readers whose members
+  are of different kinds (all text or all bytes).  codecs stream readers are left out: their read(size) is documented
+  as approximate, so "a sized read returns at most n" is not theirs to keep.
 
 TMPDIR / tempfile.tempdir point to a scratch directory under /dev/shm for the duration of the run; every object is
 closed at the end of its transition; the directory is removed afterwards.
@@ -125,10 +135,27 @@ def opname(op):
     return op[0]
 
 
+ITERS = {}                  # id(file object) -> the iterator obtained by the last `iter` operation (dropped on close)
+
+
+def kept_iterator(f):
+    """Part of the state: None while next() goes to the file itself, else a description of the foreign iterator."""
+    it = ITERS.get(id(f))
+    if it is None or it is f:
+        return None
+    try:
+        return ('iterator', type(it).__name__, bool(getattr(it, 'closed', False)))
+    except Exception as e:                           # noqa
+        return ('iterator', type(it).__name__, '<%s>' % type(e).__name__)
+
+
 def apply(f, op, kind, ref=False):
     """Run one operation; returns ('ok', value) or ('exc', class name).  Hang passes through."""
     name = op[0]
     try:
+        if name == 'iter':
+            ITERS[id(f)] = iter(f)
+            return ('ok', None)                      # the iterator object itself is not an observable
         if name == 'write':
             f.write(op[1].encode('utf-8') if kind == 'bytes' else op[1])
             return ('ok', None)                      # return value deliberately not observed (DESIGN 5.1)
@@ -139,7 +166,8 @@ def apply(f, op, kind, ref=False):
         if name == 'readlines':
             return ('ok', f.readlines())
         if name == 'next':
-            return ('ok', next(f))
+            it = ITERS.get(id(f))
+            return ('ok', next(f if it is None else it))
         if name == 'iterate':
             out = []
             for line in f:                           # a plain for loop: list(f) would also call len(f) as a hint
@@ -175,12 +203,12 @@ def hidden(f, kind):
         b = f.buffer
         rolled = bool(f._rolled)
         if kind == 'bytes':
-            return (rolled, b.tell())
+            return (rolled, b.tell(), kept_iterator(f))
         stream = getattr(b, 'stream', b)
         rd = getattr(b, 'reader', None)
         lb = getattr(rd, 'linebuffer', None)
         return (rolled, stream.tell(), getattr(f, '_tell', None), getattr(rd, 'charbuffer', None),
-                getattr(rd, 'bytebuffer', None), tuple(lb) if lb else None)
+                getattr(rd, 'bytebuffer', None), tuple(lb) if lb else None, kept_iterator(f))
     except Exception as e:                           # noqa
         return ('<state unreadable: %s>' % type(e).__name__,)
 
@@ -208,7 +236,10 @@ class Spec:
     def fresh(self, ioutils):
         ref = io.BytesIO() if self.kind == 'bytes' else io.StringIO()
         cls = getattr(ioutils, self.clsname)
-        return ref, [cls(max_size=m) for m in MAX_SIZES]
+        var = [cls(max_size=m) for m in MAX_SIZES]
+        for f in [ref] + var:
+            ITERS.pop(id(f), None)
+        return ref, var
 
     def build(self, ioutils, hist):
         ref, var = self.fresh(ioutils)
@@ -221,6 +252,7 @@ class Spec:
     @staticmethod
     def close(ref, var):
         for f in [ref] + list(var):
+            ITERS.pop(id(f), None)
             try:
                 f.close()
             except BaseException:                    # noqa - closing must never mask the verdict
@@ -234,7 +266,7 @@ class Spec:
         if pos == content_len and nwrites < self.max_writes:
             ops += [('write', w) for w in self.words]
         ops += [('read',)] + [('read', n) for n in READ_NS]
-        ops += [('readline',), ('readlines',), ('next',), ('iterate',)]
+        ops += [('readline',), ('readlines',), ('iter',), ('next',), ('iterate',)]
         ops += [('seek', p) for p in range(content_len + 1)]
         ops += [('seek_end',), ('tell',), ('getvalue',), ('len',), ('rollover',)]
         return ops
@@ -347,6 +379,79 @@ def spooled_searches(tier):
 
 MFR_ALPHABET = ('a', 'b', '\n')
 MFR_INSTR = (1, 2, 3, 'read', 'seek0')
+MFR_ALPHABET_X = ('a', '\u00e9', '\n')       # contents for the other member kinds: a two-byte character included
+
+
+def _spooled_member(ioutils, clsname, data, roll):
+    f = getattr(ioutils, clsname)(max_size=10 ** 6)
+    f.write(data)
+    if roll:
+        f.rollover()
+    f.seek(0)
+    return f
+
+
+def _disk_member(data, text):
+    fd, path = tempfile.mkstemp(prefix='member-', dir=SCRATCH)
+    with os.fdopen(fd, 'wb') as w:
+        w.write(data)
+    try:
+        return open(path, 'r', encoding='utf-8', newline='') if text else open(path, 'rb')
+    finally:
+        os.unlink(path)                              # the open file stays readable; nothing is left behind
+
+
+# kind -> (is text, factory(ioutils, str content) -> file object positioned at 0).  Only file objects whose read(n)
+# returns exactly n items while data remains (the contract MultiFileReader.read(n) relies on).
+MEMBER_KINDS = {
+    'text': (True, lambda io_, m: io.StringIO(m)),
+    'bytes': (False, lambda io_, m: io.BytesIO(m.encode('utf-8'))),
+    'text:SpooledStringIO': (True, lambda io_, m: _spooled_member(io_, 'SpooledStringIO', m, False)),
+    'text:SpooledStringIO-rolled': (True, lambda io_, m: _spooled_member(io_, 'SpooledStringIO', m, True)),
+    'text:TextIOWrapper': (True, lambda io_, m: io.TextIOWrapper(io.BytesIO(m.encode('utf-8')), encoding='utf-8',
+                                                                 newline='')),
+    'text:open-r': (True, lambda io_, m: _disk_member(m.encode('utf-8'), True)),
+    'bytes:SpooledBytesIO': (False, lambda io_, m: _spooled_member(io_, 'SpooledBytesIO', m.encode('utf-8'), False)),
+    'bytes:SpooledBytesIO-rolled': (False, lambda io_, m: _spooled_member(io_, 'SpooledBytesIO', m.encode('utf-8'),
+                                                                          True)),
+    'bytes:BufferedReader': (False, lambda io_, m: io.BufferedReader(io.BytesIO(m.encode('utf-8')))),
+    'bytes:open-rb': (False, lambda io_, m: _disk_member(m.encode('utf-8'), False)),
+}
+# readers whose members are of different kinds: member i is of kind MIXED[...][i % 3]
+MIXED = {
+    'text:mixed': ('text', 'text:SpooledStringIO', 'text:TextIOWrapper'),
+    'text:mixed-2': ('text:SpooledStringIO-rolled', 'text:TextIOWrapper', 'text'),
+    'bytes:mixed': ('bytes', 'bytes:SpooledBytesIO', 'bytes:BufferedReader'),
+    'bytes:mixed-2': ('bytes:SpooledBytesIO-rolled', 'bytes:BufferedReader', 'bytes'),
+}
+MFR_KINDS_X_MEMORY = ('text:SpooledStringIO', 'text:TextIOWrapper', 'bytes:SpooledBytesIO', 'bytes:BufferedReader')
+MFR_KINDS_X_MIXED = ('text:mixed', 'bytes:mixed')
+MFR_KINDS_X_ROLLED = ('text:SpooledStringIO-rolled', 'bytes:SpooledBytesIO-rolled')     # a temporary file per member
+MFR_KINDS_X_DISK = ('text:open-r', 'bytes:open-rb')
+MFR_KINDS_X_MORE = ('text:mixed-2', 'bytes:mixed-2')
+
+
+def member_files(ioutils, kind, members):
+    """-> (files, concatenation, empty value).  Files already built are closed if a later factory raises."""
+    kinds = MIXED.get(kind) or (kind,)
+    is_text = MEMBER_KINDS[kinds[0]][0]
+    files = []
+    try:
+        for i, m in enumerate(members):
+            files.append(MEMBER_KINDS[kinds[i % len(kinds)]][1](ioutils, m))
+    except BaseException:
+        close_all(files)
+        raise
+    full = ''.join(members)
+    return files, (full if is_text else full.encode('utf-8')), ('' if is_text else b'')
+
+
+def close_all(files):
+    for f in files:
+        try:
+            f.close()
+        except BaseException:                        # noqa - closing must never mask the verdict
+            pass
 
 
 def partitions(content):
@@ -360,19 +465,27 @@ def partitions(content):
             yield (content[:i], content[i:j], content[j:])
 
 
-def mfr_run(MultiFileReader, kind, members, prog):
-    """Execute one read program on a fresh reader.  Returns None or (sig-suffix, expected, observed)."""
-    if kind == 'bytes':
-        files = [io.BytesIO(m.encode('ascii')) for m in members]
-        full, acc = ''.join(members).encode('ascii'), b''
-    else:
-        files = [io.StringIO(m) for m in members]
-        full, acc = ''.join(members), ''
-    empty = acc
+def mfr_run(ioutils, kind, members, prog):
+    """Execute one read program on a fresh reader over fresh members.  Returns None or (sig-suffix, expected,
+    observed); the suffix names the member kind unless it is the plain io.StringIO / io.BytesIO one."""
+    v = _mfr_run(ioutils, kind, members, prog)
+    if v is not None and kind not in ('text', 'bytes'):
+        v = (v[0] + '|members=' + kind.split(':', 1)[1],) + tuple(v[1:])
+    return v
+
+
+def _mfr_run(ioutils, kind, members, prog):
+    try:
+        files, full, empty = member_files(ioutils, kind, members)
+    except Hang:
+        raise
+    except Exception as e:                           # noqa - e.g. a spooled member that cannot be written any more
+        return ('members|cannot-be-prepared', 'no exception', type(e).__name__)
+    acc = empty
     phase = 'initial'
     ins = None
     try:
-        r = MultiFileReader(*files)
+        r = ioutils.MultiFileReader(*files)
         for ins in prog:
             if ins == 'seek0':
                 r.seek(0)
@@ -394,6 +507,8 @@ def mfr_run(MultiFileReader, kind, members, prog):
         raise
     except Exception as e:                           # noqa
         return ('%s|%s|raises' % ('seek(0)' if ins == 'seek0' else 'read', phase), 'no exception', type(e).__name__)
+    finally:
+        close_all(files)
     return None
 
 
@@ -406,7 +521,7 @@ def mfr_programs(maxlen):
 
 def mfr_shard(arg):
     items, proglen = arg
-    from boltons.ioutils import MultiFileReader
+    from boltons import ioutils
     progs = mfr_programs(proglen)
     t = inputs.Tally()
     hung = False
@@ -419,7 +534,7 @@ def mfr_shard(arg):
                         case = {'part': 'mfr', 'kind': kind, 'members': list(members), 'program': list(prog)}
                         nontrivial = spans and any(i != 'seek0' for i in prog)
                         t.count(nontrivial=nontrivial, sample=case if nontrivial and len(prog) > 2 else None)
-                        v = mfr_run(MultiFileReader, kind, members, prog)
+                        v = mfr_run(ioutils, kind, members, prog)
                         if v is not None:
                             t.bad('C18|mfr:' + v[0], case, v[1], v[2])
             except Hang:
@@ -428,10 +543,10 @@ def mfr_shard(arg):
     return t
 
 
-def mfr_items(maxlen):
+def mfr_items(maxlen, alphabet=MFR_ALPHABET, kinds=('text', 'bytes')):
     items = []
-    for content in inputs.texts(MFR_ALPHABET, maxlen):
-        for kind in ('text', 'bytes'):
+    for content in inputs.texts(alphabet, maxlen):
+        for kind in kinds:
             items.append((kind, content))
     return items
 
@@ -462,6 +577,21 @@ def run(ctx):
         shard_args = [(small, proglen)] + [(sh, proglen) for sh in core.shards(rest, 63)]
         inputs.run_shards(ctx, mfr_shard, shard_args, part='MultiFileReader', rule=(
             'non-trivial = content non-empty, at least two member files and at least one read in the program'))
+        # the other member kinds, on a smaller space (their reads cost 10-50x an io.StringIO's)
+        if quick:
+            spaces = [(MFR_KINDS_X_MEMORY, 3, 3), (MFR_KINDS_X_MIXED + MFR_KINDS_X_ROLLED, 2, 3),
+                      (MFR_KINDS_X_DISK, 1, 3)]
+        else:
+            spaces = [(MFR_KINDS_X_MEMORY + MFR_KINDS_X_MIXED + MFR_KINDS_X_ROLLED + MFR_KINDS_X_DISK
+                       + MFR_KINDS_X_MORE, 3, 4)]
+        shard_args, first = [], []
+        for kinds, xlen, xprog in spaces:
+            xitems = mfr_items(xlen, MFR_ALPHABET_X, kinds)
+            first.append(([it for it in xitems if len(it[1]) <= 1], xprog))
+            shard_args += [(sh, xprog) for sh in core.shards([it for it in xitems if len(it[1]) > 1], 24)]
+        inputs.run_shards(ctx, mfr_shard, first + shard_args, part='MultiFileReader over other kinds of member files',
+                          rule='non-trivial = content non-empty, at least two member files and at least one read in '
+                               'the program')
         cov['bounds'] = {
             'spooled': {'max_sizes': list(MAX_SIZES), 'read_sizes': list(READ_NS), 'seeks': 'every position 0..len, '
                         'and seek(0, SEEK_END)', 'depth': 'unbounded (search runs to a fixpoint)',
@@ -469,7 +599,12 @@ def run(ctx):
                             [c['class'], c['READ_CHUNK_SIZE'], c['words'], c['max_writes']] for c, _ in parts]},
             'MultiFileReader': {'alphabet': list(MFR_ALPHABET), 'max_content_len': maxlen, 'members': '1-3, empty '
                                 'members included', 'program_steps': proglen, 'instructions': list(MFR_INSTR),
-                                'kinds': ['text (io.StringIO members)', 'bytes (io.BytesIO members)']}}
+                                'kinds': ['text (io.StringIO members)', 'bytes (io.BytesIO members)']},
+            'MultiFileReader over other kinds of member files': [
+                {'member_kinds': list(kinds), 'alphabet': list(MFR_ALPHABET_X), 'max_content_len': xlen,
+                 'members': '1-3, empty members included', 'program_steps': xprog, 'instructions': list(MFR_INSTR)}
+                for kinds, xlen, xprog in spaces],
+            'mixed member kinds (member i is of kind [i % 3])': {k: list(v) for k, v in MIXED.items()}}
         cov['exhaustive'] = bool(spooled_exhaustive)
     ctx.assumptions += [
         "write()'s return value is not compared; writes happen only with the position at the end of the data; seeks "
@@ -479,6 +614,8 @@ def run(ctx):
         'explicit rollover() is treated as a configuration event (no-op on the reference): it must keep content and '
         'position',
         'MultiFileReader: a sized read may return fewer items than asked (but not zero) while data remains',
+        'MultiFileReader members are file objects whose own read(n) is exact (io, open(), the Spooled classes); codecs '
+        'stream readers, whose read(size) is approximate, are not used as members',
         'the stdlib objects underneath (BytesIO, TemporaryFile on tmpfs, codecs.StreamReader) are trusted']
 
 
@@ -489,11 +626,11 @@ def replay(ctx, data):
     msgs = []
     with scratch_tmpdir():
         if case.get('part') == 'mfr':
-            from boltons.ioutils import MultiFileReader
+            from boltons import ioutils
             prog = [i if i in ('read', 'seek0') else int(i) for i in case['program']]
             try:
                 with cpu_budget(30.0):
-                    v = mfr_run(MultiFileReader, case['kind'], tuple(case['members']), tuple(prog))
+                    v = mfr_run(ioutils, case['kind'], tuple(case['members']), tuple(prog))
             except Hang:
                 v = ('read|terminates', 'returns', 'no return within the CPU budget')
             if v is not None:
